@@ -1,3 +1,4 @@
+\* every class sequence of length <= 3, every schedule: 285 distinct / 6,183 generated, seconds
 SPECIFICATION Spec
 CONSTANTS
   Ns = {1, 2, 3}
